@@ -53,6 +53,8 @@ type Config struct {
 	Engine map[string]bool // packages whose functions are followed into
 	// PairRule: accept the err == nil edge of the producing call as evidence for result #0.
 	PairRule bool
+	// FollowDynamic: follow calls through function values using the call graph.
+	FollowDynamic bool
 }
 
 type item struct {
@@ -251,19 +253,21 @@ func Check(cfg Config, sources []Source) *Result {
 				if ev != "" {
 					continue // proven non-nil at the call
 				}
-				callee := c.StaticCallee()
-				if callee == nil {
-					continue
+				var callees []*ssa.Function
+				if callee := c.StaticCallee(); callee != nil {
+					callees = []*ssa.Function{callee}
+				} else if cfg.FollowDynamic {
+					// function literals kept in (captured) variables: resolved through the call graph
+					callees = cfg.Prog.Callees(u)
 				}
-				if mc, ok := c.Value.(*ssa.MakeClosure); ok {
-					_ = mc
-				}
-				if !inEngine(callee) {
-					continue
-				}
-				for i, a := range c.Args {
-					if a == v && i < len(callee.Params) {
-						push(callee.Params[i], it.src, it.chain, fmt.Sprintf("argument %d of %s called from %s", i, prog.FuncName(callee), prog.FuncName(u.Parent())))
+				for _, callee := range callees {
+					if !inEngine(callee) {
+						continue
+					}
+					for i, a := range c.Args {
+						if a == v && i < len(callee.Params) {
+							push(callee.Params[i], it.src, it.chain, fmt.Sprintf("argument %d of %s called from %s", i, prog.FuncName(callee), prog.FuncName(u.Parent())))
+						}
 					}
 				}
 			case *ssa.MakeClosure:
